@@ -38,11 +38,19 @@ var solvers = []solverSpec{
 
 var workDir = "/verif/work"
 
+// wallFactor: the solvers' budget is CPU time (ulimit -t), so that a loaded machine slows a check down instead of making
+// obligations time out; the wall-clock limit is only a backstop, this many times larger.
+const wallFactor = 12
+
 func runOne(ctx context.Context, s solverSpec, file string, timeoutS int) (status, out string, ms int64) {
-	argv := s.argv(file, timeoutS)
-	cctx, cancel := context.WithTimeout(ctx, time.Duration(timeoutS+2)*time.Second)
+	argv := s.argv(file, timeoutS*wallFactor)
+	cctx, cancel := context.WithTimeout(ctx, time.Duration(timeoutS*wallFactor+2)*time.Second)
 	defer cancel()
-	cmd := exec.CommandContext(cctx, argv[0], argv[1:]...)
+	sh := fmt.Sprintf("ulimit -t %d; exec", timeoutS)
+	for _, a := range argv {
+		sh += " '" + strings.ReplaceAll(a, "'", "'\\''") + "'"
+	}
+	cmd := exec.CommandContext(cctx, "/bin/sh", "-c", sh)
 	var buf bytes.Buffer
 	cmd.Stdout = &buf
 	cmd.Stderr = &buf
